@@ -43,7 +43,7 @@ VIEWS = {
 }
 
 VIEW_OPS = ['append', 'insert', 'pop', 'pop_last', 'setitem', 'delitem', 'delslice', 'setslice', 'extend', 'clear', 'remove', 'discard']
-RAW_PRE_OPS = [None, 'insert', 'pop', 'setitem', 'delslice']
+RAW_PRE_OPS = [None, 'insert', 'pop', 'setitem', 'delslice', 'setslice_ext']
 
 
 def view_value(view, x):
@@ -138,7 +138,10 @@ def make_view(scaf_name, n, vi, op, facet, pre=None, twin=False):
             pd = pick(pd, 0, nd - 1)
             with NoTracing():
                 try:
-                    apply_real(pre, raw, pi, pi + 1 if pre == 'delslice' else None, [sc.donors[pd]()], None)
+                    if pre == 'setslice_ext':    # raw[pi:pi+3:2] = two donors of different kinds: same length, kinds at those positions may change
+                        apply_real(pre, raw, pi, pi + 3, [sc.donors[pd](), sc.donors[1 - pd]()], 2)
+                    else:
+                        apply_real(pre, raw, pi, pi + 1 if pre == 'delslice' else None, [sc.donors[pd]()], None)
                 except REFUSALS:
                     return
         uses_i = op in ('insert', 'pop', 'setitem', 'delitem', 'delslice', 'setslice')
@@ -255,8 +258,10 @@ KEYS = ['ka', 'kb', 'kc', 'zz']
 MAP_VALUES = ['new', D('5'), None, True]
 
 
-def make_map(n, op, facet, raw_view=False, pre=None, twin=False):
-    text = docenv.embed('2000-01-01 * "n"' + ''.join('\n' + x for x in META_LINES[:n]) + '\n    Assets:A  1 USD')
+def make_map(n, op, facet, raw_view=False, pre=None, twin=False, col0=False):
+    # col0: an unindented comment line is the first entry of the metadata block (valid, unusual): new items must still
+    # take the indentation of the existing meta ITEMS
+    text = docenv.embed('2000-01-01 * "n"' + ('\n; c0' if col0 else '') + ''.join('\n' + x for x in META_LINES[:n]) + '\n    Assets:A  1 USD')
 
     def cell(ki: int, vi: int, pi: int) -> None:
         assert 0 <= ki < len(KEYS) and 0 <= vi < len(MAP_VALUES) and -n - 3 <= pi <= n + 3
@@ -372,7 +377,7 @@ def make_map(n, op, facet, raw_view=False, pre=None, twin=False):
                 tail = docenv.POST
                 check(after.text().endswith(tail), 'window:', what, 'characters after the transaction changed')
 
-    name = 'map_%s_%s%d_%s%s%s' % (facet, 'rawmeta' if raw_view else 'meta', n, op, ('_after_' + pre) if pre else '', '_twin' if twin else '')
+    name = 'map_%s_%s%d_%s%s%s%s' % (facet, 'rawmeta' if raw_view else 'meta', n, op, ('_after_' + pre) if pre else '', '_col0' if col0 else '', '_twin' if twin else '')
     return name, cell
 
 
@@ -452,7 +457,8 @@ for _facet, _prop in FACET_PROP.items():
                             continue
                         quick = (_scaf in QUICK_VIEW_SCAF and _n == 3 and _vi == 0
                                  and ((_pre is None and _op in ('insert', 'pop', 'setitem', 'delitem', 'remove', 'discard', 'setslice'))
-                                      or (_pre == 'insert' and _op in ('setitem', 'pop', 'remove') and _facet in ('views', 'window', 'reparse'))))
+                                      or (_pre == 'insert' and _op in ('setitem', 'pop', 'remove') and _facet in ('views', 'window', 'reparse'))
+                                      or (_pre == 'setslice_ext' and _op in ('setitem', 'pop') and _facet in ('views', 'window') and _scaf != 'open_cur')))
                         _reg(make_view(_scaf, _n, _vi, _op, _facet, pre=_pre), {_prop: Q if quick else T}, 900, 'view/' + _facet,
                              '%s with %d items, view %s, %s%s: index/bounds symbolic in [-n-3, n+3]' % (
                                  _scaf, _n, _view.attr, _op, (' after raw ' + _pre + ' at a symbolic index') if _pre else ''),
@@ -469,6 +475,12 @@ for _facet, _prop in FACET_PROP.items():
                     _reg(make_map(_n, _op, _facet, raw_view=_rv, pre=_pre), {_prop: Q if quick else T}, 600, 'map/' + _facet,
                          'transaction with %d meta lines (duplicate key, interleaved comment), %s mapping view, %s with present/duplicate/absent key%s' % (
                              _n, 'raw_meta' if _rv else 'meta', _op, (' after raw ' + _pre) if _pre else ''), cost=20)
+    for _n in (1, 3):
+        for _op in ('setitem', 'delitem', 'pop'):
+            if _facet == 'refuse' and _op == 'setitem':
+                continue
+            _reg(make_map(_n, _op, _facet, col0=True), {_prop: Q if (_n == 3 and _op == 'setitem') else T}, 600, 'map/' + _facet,
+                 'transaction whose metadata block starts with an UNINDENTED comment line, %d meta lines, meta mapping view, %s' % (_n, _op), cost=20)
 for _scaf in ('txn_postings', 'txn_meta', 'posting_meta', 'file_dirs'):
     for _n in (0, 2, 3, 4):
         for _mode in ('cycle', 'late'):
